@@ -17,7 +17,7 @@ pub fn run(ctx: &Ctx) -> &'static str {
     ctx.explore(
         "history",
         "routing histories over 1..4 real links (re-routes to another link, untracked probe copies, slot collisions seq+-k*16384, clock steps around 5000 ms, link removal through apply_connection_changes, resets) followed by NAK lists with duplicates and ranges, half as real NAK packets through handle_uplink_packet, half number-by-number through the real attribute_nak; per-NAK deltas of (loss count, window, in-flight) on all links vs the ownership model; non-trivial = a NAKed seq was held by >=2 links, or its slot was displaced, or its age was within 1 ms of expiry, or its owner was removed/reset",
-        ctx.tier.pick(30_000, 600_000),
+        ctx.tier.pick(100_000, 1_000_000),
         || acct::strategy(Which::C05, max_ops),
         |_| |c: &acct::Case, o: &mut crate::rt::Obs| acct::check(c, o, Which::C05),
     );
